@@ -24,3 +24,21 @@ package sender
 //@ nopanic C13
 //@ ensures result1 == (result0 != nil)
 //@ ensures result0 != nil ==> result0.Type == "http" || result0.Type == "poll"
+
+// The target table: after a configured target has been processed, its name resolves to exactly that
+// target (the last definition of a name wins); the built-in default is only added when no target is
+// named "default".
+//@ func New
+//@ props C19
+//@ nopanic C13
+//@ requires a != nil && metrics != nil && config != nil
+//@ loop-complete 1
+//@ loop 2 invariant worker != nil && worker.plugins != nil
+//@ elem Instantiate assume elem != nil
+//@ site loop 1 backedge assert has_key(targets, target.Name) && targets[target.Name] != nil && targets[target.Name].Type == target.Type && targets[target.Name].Data == target.Data
+
+// Plugin construction opens listeners and clients: outside the verified subset, assumed.
+//@ func (*PluginConfig).Instantiate
+//@ props C19
+//@ opaque
+//@ ensures result1 == nil ==> result0 != nil
